@@ -40,6 +40,10 @@ CHECKS = {
    technique="exhaustive input-domain enumeration: all 1 180 672 permission records x all 35 real rule functions x 4 targets with algebraic oracles (no panic, monotonicity, isolation, id symmetry, root, documented-hierarchy upper bound); plus exhaustive operation x session-state tables on the real System and over TCP",
    text="The complete space of permission records (2^10 global x optional stream record 2^6 x topic table none/empty/2^4) is evaluated by every real rule function; adding any single flag or record must never turn allowed into denied, stream-1/topic-1 records must never open stream 2/topic 2, stream-level outcomes must not depend on which topic id a topic record is attached to, root is allowed everything, and nothing may be allowed that the most generous reading of the documented hierarchy does not grant. Every System operation is run under never-logged-in and stale sessions (must be refused, nothing may change) and as a user with each single-flag record (never performed when its rule says unauthorized); every SDK call is tried over TCP before login and after logout; permission updates and user deletion are observed on an already open second connection; root cannot be deleted or stripped.",
    note="Trusted base: the 35-row reference table of sufficient flags (ambiguities resolved towards 'allowed', so it can only under-report); HTTP routes not covered in this revision."),
+ "C13": dict(cat="exploration", engine="E-enum/codec", design="§5 C13",
+   technique="exhaustive boundary-product enumeration of every request type through the SDK encoder and the server's real decoder (plus journal and on-disk encodings), field-by-field comparison of every SDK-decoded response with the server's in-memory entity in bounded state families, and exhaustive malformed-frame families (every cut point, every byte position x masks) watched by a bystander connection and state digests",
+   text="All 44 request types are encoded for the full product of per-field boundary values and decoded by the server decoder (re-exported under the hook flag); the decoded request, validate() and the journal / stored-message round trips must agree. Every get/list/poll response is decoded by the SDK over TCP, by id and by name, in a rich and an empty server state and compared field by field with the entity the server holds. Malformed frames - short length prefixes, wrong declared lengths, unknown code, 20 valid requests truncated at every cut point and with every byte (command code included) xor-ed with 3 masks (thorough: all 255) - are sent before and after login; a second authenticated connection must keep answering, and whenever the answer is an error or a closed connection the catalogue and the data directory must be byte-identical; a process death is a violation (breadcrumb names the frame).",
+   note="Trusted base: comparison code; a flipped frame that is another valid request may take effect (only refused frames must change nothing). Declared frame lengths above 1000 bytes are not sent. HTTP/JSON not covered in this revision."),
  "C17": dict(cat="exploration", engine="E-enum/partition-selection", design="§5 C17",
    technique="exhaustive input-domain enumeration on the real System: all 1- and 2-byte keys and patterned keys of every length x partition counts 1..16 (thorough: +100, 1000); all boundary partition ids; all balanced-send/partition-change histories up to depth 7-9",
    text="Every key is sent twice as a two-message batch to topics with every partition count; after each send exactly one existing partition must have grown by two and it must be the same partition both times; full polls at the end confirm every message sits where it was counted and nowhere else. Partition ids 0, 1, count, count+1, u32::MAX must store exactly there or be rejected with nothing stored. Consecutive balanced sends on an unchanged topic must rotate through 1..n for every history of sends and partition additions/removals up to the depth.",
